@@ -2208,8 +2208,12 @@ func main() {
 	if old, err := os.ReadFile(path); err == nil && string(old) == content {
 		return // unchanged: keep the timestamp so that lake rebuilds nothing
 	}
-	_ = os.Remove(path)
-	if err := os.WriteFile(path, []byte(content), 0o644); err != nil {
+	tmp := fmt.Sprintf("%s.%d.tmp", path, os.Getpid())
+	if err := os.WriteFile(tmp, []byte(content), 0o644); err != nil {
+		fmt.Fprintln(os.Stderr, "gotrans:", err)
+		os.Exit(2)
+	}
+	if err := os.Rename(tmp, path); err != nil {
 		fmt.Fprintln(os.Stderr, "gotrans:", err)
 		os.Exit(2)
 	}
